@@ -331,26 +331,125 @@ def gen_positions(rng, latlon, temporal, fdim, n, m):
     return cp, tp
 
 
+# raw offsets of (nearly) coincident points.  `CovModel.cov_nugget` treats lags inside numpy's isclose band of 0
+# (|r| <= 1e-8 in ISOMETRISED coordinates: raw offsets divided by the anisotropy ratios / chordal distances scaled by
+# geo_scale) as lag 0; the offsets straddle that band whatever the anisotropy / geo_scale is.  The class a pair falls
+# into (same / in-band / near) is determined afterwards from the model's own isometrised distances (`coincidence`)
+GROUP_OFFSETS = [0.0, 0.0, 0.0, 1e-9, 3e-9, 6e-9, 3e-8, 1e-7, 1e-6]
+GROUP_OFFSETS_DEG = [0.0, 0.0, 0.0, 1e-11, 1e-10, 1e-9, 1e-7, 1e-5]
+BAND = 1e-8
+
+
+def near_offset(rng, fdim, latlon):
+    """offset vector (fdim,) of one of the magnitudes above along one axis, all axes, or a random direction"""
+    mag = float(rng.choice(GROUP_OFFSETS_DEG if latlon else GROUP_OFFSETS))
+    if mag == 0.0:
+        return np.zeros(fdim)
+    mode = int(rng.randint(3))
+    if mode == 0:
+        v = np.zeros(fdim)
+        v[int(rng.randint(fdim))] = float(rng.choice([-1.0, 1.0]))
+    elif mode == 1:
+        v = rng.choice([-1.0, 1.0], size=fdim) / np.sqrt(fdim)
+    else:
+        v = rng.randn(fdim)
+        v /= max(np.linalg.norm(v), 1e-300)
+    return mag * v
+
+
+def add_groups(rng, cp, latlon, groups, extra_max=2):
+    """`groups` anchors among the columns of `cp` get 1..extra_max further conditioning points at the anchor plus a
+    near_offset (repeated / nearly repeated measurements at one station); the columns are shuffled afterwards so that
+    coincident points are not adjacent.  Returns the new positions (fdim, n + extras)"""
+    fdim, n = cp.shape
+    groups = min(int(groups), n)
+    if groups <= 0:
+        return cp
+    cols = [cp]
+    for a in rng.permutation(n)[:groups]:
+        for _ in range(int(rng.randint(1, extra_max + 1))):
+            cols.append((cp[:, a] + near_offset(rng, fdim, latlon))[:, None])
+    out = np.hstack(cols)
+    return out[:, rng.permutation(out.shape[1])]
+
+
+def iso_dists(model, a, b=None):
+    """the lags the kriging system is built from: Euclidean distances of the isometrised positions"""
+    ia = model.isometrize(a)
+    ib = ia if b is None else model.isometrize(b)
+    return cdist(ia.T, ib.T)
+
+
+def coincidence(cfg, model, cond_pos=None):
+    """classification of the conditioning layout by the model's isometrised lags: dict(
+    same = number of pairs at lag exactly 0, band = pairs with 0 < lag <= 1e-8 (inside the isclose band of
+    cov_nugget), near = pairs with 1e-8 < lag <= 1e-5, groups = number of connected groups of in-band points,
+    isolated = boolean mask of the points with NO other conditioning point inside the band)"""
+    cp = np.asarray(cfg["cond_pos"] if cond_pos is None else cond_pos, dtype=float)
+    n = cp.shape[1]
+    d = iso_dists(model, cp)
+    off = ~np.eye(n, dtype=bool)
+    inb = (d <= BAND) & off
+    iu = np.triu_indices(n, 1)
+    lab = np.arange(n)
+    changed = True
+    while changed:                          # connected components of the in-band relation (tiny n)
+        changed = False
+        for i, j in zip(*np.nonzero(inb)):
+            lo = min(lab[i], lab[j])
+            if lab[i] != lo or lab[j] != lo:
+                lab[i] = lab[j] = lo
+                changed = True
+    grp = len({l for l in lab if np.sum(lab == l) > 1})
+    return dict(same=int(np.sum(d[iu] == 0)), band=int(np.sum((d[iu] > 0) & (d[iu] <= BAND))),
+                near=int(np.sum((d[iu] > BAND) & (d[iu] <= 1e-5))), groups=grp, isolated=~inb.any(axis=1), labels=lab)
+
+
+def coin_tag(cfg, model, cond_pos=None):
+    """short tag of the coincidence class of a layout x error kind x nugget, for the input distribution"""
+    c = coincidence(cfg, model, cond_pos)
+    ce = cfg["cond_err"]
+    ek = "nugget" if isinstance(ce, str) else ("array" if isinstance(ce, np.ndarray) else "scalar")
+    lay = "distinct" if not (c["same"] or c["band"] or c["near"]) else \
+        "+".join(k for k in ("same", "band", "near") if c[k]) + f"/groups={min(c['groups'], 3)}"
+    return f"coin:{lay}/err={ek}/nugget{'>0' if model.nugget > 0 else '=0'}/exact={cfg['exact']}"
+
+
 VARIANTS = ("Simple", "Ordinary", "Universal", "ExtDrift", "Detrended", "Krige")
 VARIANT_WEIGHT = {"Simple": 0.2, "Ordinary": 0.13, "Universal": 0.17, "ExtDrift": 0.15, "Detrended": 0.1, "Krige": 0.25}
 
 
-def gen_config(rng, variants=VARIANTS, latlon_ok=True, max_n=9, mnt=True, frames=True, strat=None):
+def gen_config(rng, variants=VARIANTS, latlon_ok=True, max_n=9, mnt=True, frames=True, strat=None, groups=True):
     """returns dict describing a kriging problem (everything needed to rebuild it).
     mnt=True: non-identity normalizers, constant / callable means and trends wherever the variant accepts them
     frames=True: a third of the Cartesian problems live in an affine frame raw = origin + unit * local (magnitudes
     1e-3 .. 6e7, e.g. UTM-like 4.5e5 / 5.7e6 with a length unit of 100); the length scale carries the unit
     strat: index of the case in its loop.  Every second case is stratified: the variant cycles through `variants` and
     the combination (exact flag, model nugget > 0) cycles through its four values, so that every variant meets every
-    such combination in every run however small; the other cases are drawn freely"""
+    such combination in every run however small; the other cases are drawn freely
+    groups=True: layouts with 0..3 groups of coincident / nearly coincident conditioning points (repeated measurements
+    at one station: lag exactly 0, inside and outside the isclose band of `cov_nugget`) x nugget {0, > 0} x error kind
+    {model nugget, scalar, per-point} x exact flag; every fourth case is such a layout (variant and error kind cycle), a
+    sixth of the freely drawn ones too.  `n_base` = number of stations, cond_pos holds the repeated points as well"""
     pv = np.array([VARIANT_WEIGHT[v] for v in variants], dtype=float)
     variant = str(rng.choice(variants, p=pv / pv.sum()))
     forced = None
+    n_groups, err_kind = None, None          # None: drawn freely below
     if strat is not None and strat % 2 == 0:
         k = strat // 2
         variant = variants[k % len(variants)]
         c = (k // len(variants)) % 4
         forced = dict(exact=bool(c & 1), nugget=float(rng.choice([0.125, 0.5])) if c & 2 else 0.0)
+    elif strat is not None and strat % 4 == 1 and groups:
+        # every fourth case is a coincidence case: 1-3 groups of (nearly) coincident conditioning points; the variant and
+        # the error kind (model nugget / nugget + exact / scalar error / per-point errors) cycle, the nugget is mostly
+        # positive (the regular systems), the rest is drawn freely
+        k = strat // 4
+        variant = variants[k % len(variants)]
+        c = (k // len(variants)) % 4
+        n_groups = 1 + int(rng.randint(3))
+        err_kind = ["nugget", "nugget", "scalar", "array"][c]
+        forced = dict(exact=bool(c == 1), nugget=float(rng.choice([0.125, 0.5])) if rng.rand() < 0.7 else 0.0)
     generic = variant == "Krige"
     latlon = bool(latlon_ok and rng.rand() < 0.15 and variant in ("Simple", "Ordinary", "Krige"))
     temporal = bool(rng.rand() < 0.15)
@@ -367,30 +466,42 @@ def gen_config(rng, variants=VARIANTS, latlon_ok=True, max_n=9, mnt=True, frames
     n = int(rng.randint(2, max_n + (6 if wants_drift else 0)))
     m = int(rng.randint(1, 12))
     cp, tp = gen_positions(rng, latlon, temporal, fdim, n, m)
-    n = cp.shape[1]
+    n = n_base = cp.shape[1]          # stations; drift / external-drift choices below are made for this number
+    if groups and n_groups is None and rng.rand() < 0.17:
+        n_groups = 1 + int(rng.randint(3))
     cfg = dict(variant=variant, latlon=latlon, temporal=temporal, dim=dim, fdim=fdim, cond_pos=cp,
-               pos=tp, seed=int(rng.randint(0, 2**31 - 1)))
+               pos=tp, seed=int(rng.randint(0, 2**31 - 1)), n_base=n_base, n_groups=int(n_groups or 0))
     cfg["frame"] = None
     if frames and not latlon and rng.rand() < 0.33:
         unit = float(rng.choice(UNITS))
         cfg["frame"] = dict(unit=unit, origin=[float(unit * r) for r in rng.choice(ORIGIN_RATIOS, size=fdim)])
         cp, tp = to_raw(cfg, cp), to_raw(cfg, tp)
         cfg.update(cond_pos=cp, pos=tp)
+    if n_groups:
+        # repeated stations: offsets are absolute raw lengths (the isclose band of cov_nugget is absolute)
+        cp = add_groups(rng, cp, latlon, n_groups)
+        cfg["cond_pos"] = cp
+    n = cp.shape[1]
     cfg["exact"] = bool(rng.rand() < 0.3)
     cfg["nugget"] = None          # None: the model's nugget is drawn with the model
     if forced is not None:
         cfg.update(forced)
     cfg["cond_err"] = "nugget"
-    if not cfg["exact"] and rng.rand() < 0.3:
-        cfg["cond_err"] = float(rng.choice([0.0, 0.0625])) if rng.rand() < 0.5 else (rng.randint(0, 3, n) / 16.0)
+    if err_kind is None and not cfg["exact"] and rng.rand() < 0.3:
+        err_kind = "scalar" if rng.rand() < 0.5 else "array"
+    if err_kind == "scalar" and not cfg["exact"]:
+        cfg["cond_err"] = float(rng.choice([0.0, 0.0625] if not n_groups else [0.0, 0.0625, 0.0625, 0.25]))
+    elif err_kind == "array" and not cfg["exact"]:
+        # per-point errors; with repeated stations mostly positive (regular systems), zeros stay possible
+        cfg["cond_err"] = rng.randint(1 if (n_groups and rng.rand() < 0.7) else 0, 4 if n_groups else 3, n) / 16.0
     cfg["drift"] = None
     cfg["ext"] = None
     cfg["unbiased"] = None
     if generic:
         cfg["unbiased"] = {"simple": False, "ordinary": True, "universal": True, "extdrift": True}.get(shape, bool(rng.rand() < 0.5))
     if wants_drift:
-        ch = str(rng.choice(["linear", "linear", "1", "0", "quadratic", "custom", "custom"])) if n > fdim + 2 else "0"
-        if ch == "quadratic" and n <= (fdim + 1) * (fdim + 2) // 2 + 1:
+        ch = str(rng.choice(["linear", "linear", "1", "0", "quadratic", "custom", "custom"])) if n_base > fdim + 2 else "0"
+        if ch == "quadratic" and n_base <= (fdim + 1) * (fdim + 2) // 2 + 1:
             ch = "linear"
         if cfg["frame"] is not None and ch in ("linear", "quadratic", "1") and rng.rand() < 0.7:
             ch = "custom"     # polynomial drifts of raw map coordinates make the system numerically singular (discarded)
@@ -404,17 +515,19 @@ def gen_config(rng, variants=VARIANTS, latlon_ok=True, max_n=9, mnt=True, frames
         if generic and cfg["drift"] == 0:
             cfg["drift"] = None
     if variant == "ExtDrift" or shape == "extdrift" or (shape == "free" and rng.rand() < 0.4):
-        room = n - len(drift_callables(cfg)) - 3
+        room = n_base - len(drift_callables(cfg)) - 3
         k = int(rng.randint(1, 3)) if room >= 2 else 1
         if room >= 1 or shape != "free":
             cfg["ext"] = (rng.randn(k, n), rng.randn(k, m))
     # a quarter of the problems have some targets ON conditioning points (carrying the data's external drift): the only
     # targets where exact / non-exact kriging and the nugget-aware covariance differ
-    if rng.rand() < 0.25:
+    if rng.rand() < (0.6 if n_groups else 0.25):
         j = rng.permutation(n)[: int(rng.randint(1, 1 + min(n, m, 3)))]
         idx = rng.permutation(m)[: len(j)]
         tp = np.array(cfg["pos"], copy=True)
         tp[:, idx] = cfg["cond_pos"][:, j]
+        if rng.rand() < 0.4:      # ... or nearly on them: lags inside / outside the isclose band of the nugget-aware covariance
+            tp[:, idx] += np.array([near_offset(rng, fdim, latlon) for _ in idx]).T
         cfg["pos"] = tp
         if cfg["ext"] is not None:
             et = np.array(cfg["ext"][1], copy=True)
@@ -582,12 +695,24 @@ def solve_direct(cfg, model, pos, ext_t=None, only_mean=False):
     r = len(rows)
     B = np.array(rows, dtype=float).reshape(r, n)
     K = np.block([[C, B.T], [B, np.zeros((r, r))]])
-    cf = model.cov_nugget if cfg["exact"] else model.covariance
-    ck = np.zeros((n, m)) if only_mean else cf(cdist(cp_iso.T, tp_iso.T))
+    # right-hand side: plain covariance; in exact mode the nugget-aware one — the sill at lags inside numpy's isclose band
+    # of 0 (own formula, not `model.cov_nugget`).  The error term never enters off the diagonal of C above, however
+    # close two conditioning points are.
+    lag = cdist(cp_iso.T, tp_iso.T)
+    ck = np.zeros((n, m)) if only_mean else model.covariance(lag)
+    if cfg["exact"] and not only_mean:
+        ck = np.where(lag <= BAND, float(model.var) + float(model.nugget), ck)
     k = np.vstack([ck, np.array(trows, dtype=float).reshape(r, m)])
     z = np.concatenate([prepared_data(cfg), np.zeros(r)])
-    W = np.linalg.solve(K, k)
-    return dict(raw=z @ W, var=np.maximum(model.sill - np.einsum("ij,ij->j", k, W), 0), cond=float(np.linalg.cond(K)), z=z)
+    sill = float(model.var) + float(model.nugget)
+    try:
+        cond = float(np.linalg.cond(K))
+        W = np.linalg.solve(K, k)
+    except np.linalg.LinAlgError:        # exactly singular (coincident points without measurement error): no system to compare with
+        return dict(raw=np.full(m, np.nan), var=np.full(m, np.nan), cond=np.inf, z=z, K=K)
+    if not np.isfinite(cond):
+        cond = np.inf
+    return dict(raw=z @ W, var=np.maximum(sill - np.einsum("ij,ij->j", k, W), 0), cond=cond, z=z, K=K)
 
 
 def rebuild_model(m):
@@ -753,6 +878,11 @@ class History:
             n_new = n if (arr_err and form != "all") or rng.rand() < 0.5 else int(rng.randint(max(2, n - 2), n + 3))
             cp, _ = gen_positions(rng, cfg["latlon"], cfg["temporal"], cfg["fdim"], n_new, 1)
             cp = to_raw(cfg, cp)
+            if rng.rand() < (0.5 if cfg.get("n_groups") else 0.1):     # new stations with repeated measurements
+                if arr_err and form != "all" and cp.shape[1] == n and n >= 4:
+                    cp = add_groups(rng, cp[:, : n - 2], cfg["latlon"], 2, extra_max=1)     # same number of points
+                else:
+                    cp = add_groups(rng, cp, cfg["latlon"], 1 + int(rng.randint(2)))
             if arr_err and form != "all" and cp.shape[1] != n:
                 cp = cfg["cond_pos"] + unit_of(cfg) * rng.uniform(-0.2, 0.2, size=cfg["cond_pos"].shape)
             self.data_call = None      # stored targets (if any) are no longer the conditioning points
